@@ -187,6 +187,11 @@ theorem bodySteps_key (C : Ctx) (S : Shape) (body : List BodyStep) (g : KG) (hg 
       · refine kwp_ign _ _ _ _ _ trivial (fun r => ?_)
         exact kwp_ign _ _ _ _ _ (by nkm) (fun _ => ih)
       · exact ih
+    | clearPoison c =>
+      simp only [bodySteps]
+      split
+      · exact kwp_ign _ _ _ _ _ trivial (fun _ => ih)
+      · exact ih
 
 theorem keyInv_dropped {u' : UserSt} {g : KG} (hu : u'.keys = 0) (hl : g.leaked = false) :
     KeyInv u' { g with flag := false } := by
